@@ -241,3 +241,43 @@ def sym_hash(x):
                 args.append(_z3.IntVal(int(e)))
         return SInt(f(*args))
     return hash(x)
+
+
+
+# ------------------------------------------------------------------------------------------------ range
+class SymRange:
+    """`range` whose membership test accepts symbolic integers (start <= x < stop and (x - start) % step == 0 as one term instead of
+    1 comparison per element); bounds are concrete (a symbolic bound is concretised by enumeration), everything else is the real range."""
+
+    def __init__(self, *args):
+        self._r = range(*[concretize(a) if isinstance(a, SInt) else a for a in args])
+
+    start = property(lambda self: self._r.start)
+    stop = property(lambda self: self._r.stop)
+    step = property(lambda self: self._r.step)
+
+    def __iter__(self): return iter(self._r)
+    def __len__(self): return len(self._r)
+    def __reversed__(self): return reversed(self._r)
+    def __repr__(self): return repr(self._r)
+    def __eq__(self, o): return self._r == (o._r if isinstance(o, SymRange) else o)
+    def __hash__(self): return hash(self._r)
+    def __bool__(self): return bool(self._r)
+    def index(self, x): return self._r.index(x)
+    def count(self, x): return 1 if x in self else 0
+
+    def __getitem__(self, i):
+        r = self._r[concretize(i) if isinstance(i, SInt) else i]
+        return SymRange(r.start, r.stop, r.step) if isinstance(r, range) else r
+
+    def __contains__(self, x):
+        if not isinstance(x, SInt):
+            return x in self._r
+        r = self._r
+        if len(r) == 0:
+            return False
+        lo, hi = (r.start, r[-1]) if r.step > 0 else (r[-1], r.start)
+        c = (x >= lo) & (x <= hi)
+        if abs(r.step) != 1:
+            c = c & (((x - r.start) % abs(r.step)) == 0)
+        return bool(c)
